@@ -1714,6 +1714,474 @@ theorem abs_split_lit (c0 : Char) (t : RT) (keep : Option Bool) :
     exact abs_ext (by simp [htop r hr]) rfl
 
 
+end RT
+
+/-! ### pieces up to empty interior pieces (for `split()` at white space) -/
+
+/-- the pieces after the first one: the last is kept as it is, empty ones before it are dropped -/
+def canonTail {α : Type} : List (List α) → List (List α)
+  | [] => []
+  | [z] => [z]
+  | m :: z :: r => (if m.isEmpty then [] else [m]) ++ canonTail (z :: r)
+
+/-- first and last piece as they are, empty pieces in between dropped -/
+def canon {α : Type} : List (List α) → List (List α)
+  | [] => []
+  | x :: r => x :: canonTail r
+
+def neF {α : Type} (S : List (List α)) : List (List α) := S.filter fun seg => !seg.isEmpty
+
+theorem canonTail_eq_nil {α : Type} (r : List (List α)) : canonTail r = [] ↔ r = [] := by
+  induction r with
+  | nil => simp [canonTail]
+  | cons m r ih =>
+    cases r with
+    | nil => simp [canonTail]
+    | cons z r => simp only [canonTail, List.append_eq_nil_iff, ih]; simp
+
+theorem canonTail_cons_of_ne {α : Type} (m : List α) (r : List (List α)) (h : r ≠ []) :
+    canonTail (m :: r) = (if m.isEmpty then [] else [m]) ++ canonTail r := by
+  cases r with
+  | nil => exact absurd rfl h
+  | cons z r => rfl
+
+theorem canonTail_idem {α : Type} (r : List (List α)) : canonTail (canonTail r) = canonTail r := by
+  induction r with
+  | nil => rfl
+  | cons m r ih =>
+    cases r with
+    | nil => rfl
+    | cons z r =>
+      have hne : canonTail (z :: r) ≠ [] := by rw [Ne, canonTail_eq_nil]; simp
+      simp only [canonTail]
+      by_cases hm : m.isEmpty = true
+      · simp only [hm, if_true, List.nil_append]; exact ih
+      · simp only [hm, Bool.false_eq_true, if_false, List.singleton_append]
+        rw [canonTail_cons_of_ne m _ hne, ih]; simp [hm]
+
+theorem canon_idem {α : Type} (X : List (List α)) : canon (canon X) = canon X := by
+  cases X with
+  | nil => rfl
+  | cons x r => simp [canon, canonTail_idem]
+
+theorem neF_canonTail {α : Type} (r : List (List α)) : neF (canonTail r) = neF r := by
+  induction r with
+  | nil => rfl
+  | cons m r ih =>
+    cases r with
+    | nil => rfl
+    | cons z r =>
+      simp only [canonTail]
+      by_cases hm : m.isEmpty = true
+      · simp only [hm, if_true, List.nil_append, ih]; simp [neF, hm]
+      · simp only [hm, Bool.false_eq_true, if_false, List.singleton_append]
+        simp only [neF, List.filter_cons, hm, Bool.not_false, if_true] at ih ⊢
+        rw [ih]
+
+theorem neF_canon {α : Type} (X : List (List α)) : neF (canon X) = neF X := by
+  cases X with
+  | nil => rfl
+  | cons x r =>
+    simp only [canon, neF, List.filter_cons]
+    have := neF_canonTail r
+    simp only [neF] at this
+    rw [this]
+
+theorem canonTail_of_canon {α : Type} (X Y : List (List α)) (h : canon X = canon Y) : canonTail X = canonTail Y := by
+  cases X with
+  | nil => cases Y with
+    | nil => rfl
+    | cons y s => simp [canon] at h
+  | cons x r =>
+    cases Y with
+    | nil => simp [canon] at h
+    | cons y s =>
+      simp only [canon, List.cons.injEq] at h
+      obtain ⟨rfl, h2⟩ := h
+      by_cases hr : r = []
+      · subst hr
+        have : s = [] := by rw [← canonTail_eq_nil, ← h2]; rfl
+        subst this; rfl
+      · have hs : s ≠ [] := by
+          intro hs; subst hs
+          have := (canonTail_eq_nil r).1 (by rw [h2]; rfl)
+          exact hr this
+        rw [canonTail_cons_of_ne x r hr, canonTail_cons_of_ne x s hs, h2]
+
+theorem glue_ne_nil {α : Type} (R G : List (List α)) (hR : R ≠ []) (hG : G ≠ []) : glue R G ≠ [] := by
+  match R, hR with
+  | [a], _ => cases G with
+    | nil => exact absurd rfl hG
+    | cons g G => simp [glue, mapHead]
+  | a :: b :: R, _ => simp [glue]
+
+theorem canonTail_glue {α : Type} (R G : List (List α)) (hR : R ≠ []) (hG : G ≠ []) :
+    canonTail (glue R G) = canonTail (glue (canonTail R) (canon G)) := by
+  induction R with
+  | nil => exact absurd rfl hR
+  | cons m R ih =>
+    cases R with
+    | nil =>
+      cases G with
+      | nil => exact absurd rfl hG
+      | cons g r =>
+        simp only [glue, mapHead, canonTail, canon]
+        by_cases hr : r = []
+        · subst hr; rfl
+        · have hr' : canonTail r ≠ [] := by rw [Ne, canonTail_eq_nil]; exact hr
+          rw [canonTail_cons_of_ne _ r hr, canonTail_cons_of_ne _ _ hr', canonTail_idem]
+    | cons z R' =>
+      have hne1 : glue (z :: R') G ≠ [] := glue_ne_nil _ _ (by simp) hG
+      have hct : canonTail (z :: R') ≠ [] := by rw [Ne, canonTail_eq_nil]; simp
+      have hcg : canon G ≠ [] := by cases G <;> simp_all [canon]
+      have hne2 : glue (canonTail (z :: R')) (canon G) ≠ [] := glue_ne_nil _ _ hct hcg
+      have ih' := ih (by simp)
+      simp only [glue]
+      rw [canonTail_cons_of_ne m _ hne1, ih']
+      simp only [canonTail]
+      by_cases hm : m.isEmpty = true
+      · simp [hm]
+      · simp only [hm, Bool.false_eq_true, if_false, List.singleton_append]
+        cases hc : canonTail (z :: R') with
+        | nil => exact absurd hc hct
+        | cons c cs =>
+          rw [hc] at hne2
+          simp only [glue]
+          rw [canonTail_cons_of_ne m _ hne2]; simp [hm]
+
+theorem canon_cons {α : Type} (x : List α) (r : List (List α)) : canon (x :: r) = x :: canonTail r := rfl
+
+theorem canon_glue {α : Type} (X G : List (List α)) (hX : X ≠ []) (hG : G ≠ []) :
+    canon (glue X G) = canon (glue (canon X) (canon G)) := by
+  cases X with
+  | nil => exact absurd rfl hX
+  | cons a X' =>
+    cases X' with
+    | nil =>
+      cases G with
+      | nil => exact absurd rfl hG
+      | cons g r =>
+        have e1 : canon [a] = [a] := rfl
+        rw [e1, canon_cons g r]
+        simp only [glue, mapHead, canon_cons, canonTail_idem]
+    | cons b X'' =>
+      have hct : canonTail (b :: X'') ≠ [] := by rw [Ne, canonTail_eq_nil]; simp
+      have e1 : glue (a :: b :: X'') G = a :: glue (b :: X'') G := rfl
+      rw [e1, canon_cons, canon_cons a (b :: X'')]
+      cases hc : canonTail (b :: X'') with
+      | nil => exact absurd hc hct
+      | cons c cs =>
+        have e2 : glue (a :: c :: cs) (canon G) = a :: glue (c :: cs) (canon G) := rfl
+        rw [e2, canon_cons, ← hc, canonTail_glue _ _ (by simp) hG]
+
+theorem canon_glue_congr {α : Type} (X Y G H : List (List α)) (hX : X ≠ []) (hY : Y ≠ []) (hG : G ≠ [])
+    (hH : H ≠ []) (h1 : canon X = canon Y) (h2 : canon G = canon H) : canon (glue X G) = canon (glue Y H) := by
+  rw [canon_glue X G hX hG, canon_glue Y H hY hH, h1, h2]
+
+def glueAll {α : Type} : List (List (List α)) → List (List α)
+  | [] => [[]]
+  | S :: rest => glue S (glueAll rest)
+
+theorem glueAll_ne_nil {α : Type} (L : List (List (List α))) (h : ∀ S ∈ L, S ≠ []) : glueAll L ≠ [] := by
+  induction L with
+  | nil => simp [glueAll]
+  | cons S L ih => exact glue_ne_nil _ _ (h S (by simp)) (ih (fun T hT => h T (by simp [hT])))
+
+theorem canon_glueAll_congr {α β : Type} (l : List β) (f g : β → List (List α))
+    (hf : ∀ b ∈ l, f b ≠ []) (hg : ∀ b ∈ l, g b ≠ []) (h : ∀ b ∈ l, canon (f b) = canon (g b)) :
+    canon (glueAll (l.map f)) = canon (glueAll (l.map g)) := by
+  induction l with
+  | nil => rfl
+  | cons b l ih =>
+    simp only [List.map_cons, glueAll]
+    apply canon_glue_congr _ _ _ _ (hf b (by simp)) (hg b (by simp))
+    · exact glueAll_ne_nil _ (by intro S hS; simp only [List.mem_map] at hS; obtain ⟨x, hx, rfl⟩ := hS; exact hf x (by simp [hx]))
+    · exact glueAll_ne_nil _ (by intro S hS; simp only [List.mem_map] at hS; obtain ⟨x, hx, rfl⟩ := hS; exact hg x (by simp [hx]))
+    · exact h b (by simp)
+    · exact ih (fun x hx => hf x (by simp [hx])) (fun x hx => hg x (by simp [hx])) (fun x hx => h x (by simp [hx]))
+
+theorem glueAll_splitOnP {α β : Type} (p : α → Bool) (l : List β) (f : β → List α) :
+    glueAll (l.map fun b => splitOnP p (f b)) = splitOnP p (l.flatMap f) := by
+  induction l with
+  | nil => rfl
+  | cons b l ih => simp only [List.map_cons, glueAll, ih, List.flatMap_cons, splitOnP_append]
+
+
+namespace RT
+
+
+/-! ### `split()` at white space -/
+
+theorem reSplitWs_canon (s : Str) :
+    (∀ cur, canon (reSplitWs s cur false) = canon (mapHead (cur.reverse ++ ·) (splitOnP isWs s))) ∧
+    canonTail (reSplitWs s [] true) = canonTail (splitOnP isWs s) := by
+  induction s with
+  | nil => exact ⟨fun cur => by simp [reSplitWs, splitOnP, mapHead], rfl⟩
+  | cons c r ih =>
+    obtain ⟨ih1, ih2⟩ := ih
+    by_cases hc : isWs c = true
+    · constructor
+      · intro cur
+        simp only [reSplitWs, hc, if_true, Bool.false_eq_true, if_false]
+        rw [splitOnP_cons_true isWs c r hc]
+        simp only [mapHead, List.append_nil, canon_cons, ih2]
+      · simp only [reSplitWs, hc, if_true]
+        rw [splitOnP_cons_true isWs c r hc, canonTail_cons_of_ne _ _ (splitOnP_ne_nil isWs r), ih2]
+        simp
+    · have hc' : isWs c = false := by simpa using hc
+      constructor
+      · intro cur
+        simp only [reSplitWs, hc', Bool.false_eq_true, if_false]
+        rw [ih1 (c :: cur), splitOnP_cons_false isWs c r hc', mapHead_mapHead]
+        congr 2
+        funext y; simp
+      · simp only [reSplitWs, hc', Bool.false_eq_true, if_false]
+        apply canonTail_of_canon
+        rw [ih1 [c], splitOnP_cons_false isWs c r hc']
+        rfl
+
+theorem reSplitWs_ne_nil (s cur : Str) (b : Bool) : reSplitWs s cur b ≠ [] := by
+  induction s generalizing cur b with
+  | nil => simp [reSplitWs]
+  | cons c r ih =>
+    simp only [reSplitWs]
+    split
+    · split
+      · exact ih _ _
+      · simp
+    · exact ih _ _
+
+theorem splitLit_ne_nil (sep s cur : Str) (n : Nat) : splitLit sep s cur n ≠ [] := by
+  induction s generalizing cur n with
+  | nil => simp [splitLit]
+  | cons c r ih =>
+    cases n with
+    | succ n => simp only [splitLit]; exact ih _ _
+    | zero =>
+      simp only [splitLit]
+      split
+      · simp
+      · exact ih _ _
+
+theorem strSplit_ne_nil (sep : Sep) (s : Str) : strSplit sep s ≠ [] := by
+  cases sep with
+  | ws => exact reSplitWs_ne_nil _ _ _
+  | lit c cs => exact splitLit_ne_nil _ _ _ _
+
+theorem splitL_ne_nil (sep : Sep) (k : Kind) (ps : List RT) :
+    ∀ tail, tail ≠ [] → splitL sep k true ps tail ≠ [] := by
+  induction ps with
+  | nil =>
+    intro tail ht
+    have : (!tail.isEmpty) = true := by simpa using ht
+    simp [splitL, this]
+  | cons part ps ih =>
+    intro tail ht
+    simp only [splitL]
+    split
+    · exact ih tail ht
+    · intro h
+      simp only [List.append_eq_nil_iff] at h
+      exact ih _ (by simp) h.2
+
+theorem split_ne_nil (sep : Sep) (t : RT) : split sep t (some true) ≠ [] := by
+  cases t with
+  | str s =>
+    simp only [split, keepDefault, Bool.or_true]
+    rw [List.filter_eq_self.2 (fun _ _ => rfl)]
+    intro h
+    exact strSplit_ne_nil sep s (List.map_eq_nil_iff.1 h)
+  | sym n => simp [split]
+  | node k ps =>
+    cases k with
+    | prot => simp [split]
+    | text => simp only [split, keepDefault, if_true]; exact splitL_ne_nil _ _ _ _ (by simp)
+    | tag n => simp only [split, keepDefault, if_true]; exact splitL_ne_nil _ _ _ _ (by simp)
+    | href u e => simp only [split, keepDefault, if_true]; exact splitL_ne_nil _ _ _ _ (by simp)
+
+/-- the loop of `BaseMultipartText.split`, whatever the separator: the pieces of the parts are
+glued together (last piece of a part with the first piece of the next) -/
+theorem splitL_sem_gen (sep : Sep) (ctx : List Markup) (k : Kind) (keep : Bool) (ps : List RT) :
+    ∀ tail, (keep = true → tail ≠ []) →
+      (splitL sep k keep ps tail).map (sem ctx)
+        = keepF keep (mapHead (semL (ctx ++ k.markup) tail ++ ·)
+            (glueAll (ps.map fun p => (split sep p (some true)).map (sem (ctx ++ k.markup))))) := by
+  induction ps with
+  | nil =>
+    intro tail hk
+    simp only [splitL, List.map_nil, glueAll, mapHead, List.append_nil]
+    by_cases ht : tail = []
+    · subst ht
+      have : keep = false := by cases keep <;> simp_all
+      subst this
+      simp [keepF, semL]
+    · have : (!tail.isEmpty) = true := by simpa using ht
+      rw [if_pos this, keepF_single, sem_mk]; rfl
+  | cons part ps ih =>
+    intro tail hk
+    simp only [splitL]
+    have hne := split_ne_nil sep part
+    generalize hS : split sep part (some true) = sp at hne
+    cases hrev : sp.reverse with
+    | nil => simp at hrev; exact absurd hrev hne
+    | cons last revInit =>
+      have hsp' : sp = revInit.reverse ++ [last] := by
+        have := congrArg List.reverse hrev; simpa using this
+      simp only
+      obtain ⟨h1, h2⟩ := splitItems_sem ctx k keep revInit.reverse tail
+      rw [List.map_append, h1, h2]
+      rw [ih _ (by intro _; simp)]
+      simp only [List.map_cons, glueAll]
+      rw [hS, hsp', List.map_append, List.map_cons, List.map_nil, glue_snoc]
+      cases hI : revInit.reverse with
+      | nil =>
+        simp only [List.map_nil, List.nil_append, if_pos, keepF, List.filter_nil, mapHead_mapHead, semL_append,
+          semL, List.append_nil]
+        congr 2
+        funext x; simp [List.append_assoc]
+      | cons i is =>
+        simp only [List.map_cons, if_neg (List.cons_ne_nil _ _), List.nil_append, semL, List.append_nil,
+          List.cons_append, mapHead]
+        rw [← keepF_append]; rfl
+
+theorem isSep_ws_ch (a : Char) (ctx : List Markup) (hc : Flat.isProt ctx = false) :
+    Flat.isSep .ws (Atom.ch a, ctx) = isWs a := by
+  simp [Flat.isSep, hc]
+
+theorem canon_map {α β : Type} (f : List α → List β) (hf : ∀ x, (f x).isEmpty = x.isEmpty) (X : List (List α)) :
+    canon (X.map f) = (canon X).map f := by
+  cases X with
+  | nil => rfl
+  | cons x r =>
+    simp only [List.map_cons, canon_cons]
+    congr 1
+    induction r with
+    | nil => rfl
+    | cons m r ih =>
+      cases r with
+      | nil => rfl
+      | cons z r =>
+        simp only [List.map_cons, canonTail, hf, List.map_append] at ih ⊢
+        rw [ih]
+        by_cases hm : m.isEmpty = true <;> simp [hm]
+
+/-- the pieces `split(None, keep_empty_parts=True)` returns agree with the exact list split at
+every unprotected white-space character up to empty pieces strictly inside -/
+def SplitWsOK (t : RT) : Prop :=
+  ∀ ctx, Flat.isProt ctx = false →
+    canon ((split .ws t (some true)).map (sem ctx)) = canon (splitOnP (Flat.isSep .ws) (sem ctx t))
+
+theorem splitWsOK_all (t : RT) : SplitWsOK t := by
+  induction t using RT.induct with
+  | hstr s =>
+    intro ctx hc
+    simp only [split, keepDefault, Bool.or_true, List.map_map]
+    rw [List.filter_eq_self.2 (fun _ _ => rfl)]
+    simp only [strSplit, sem]
+    rw [splitOnP_map]
+    have : (fun a => Flat.isSep Sep.ws (Atom.ch a, ctx)) = isWs := by
+      funext a; exact isSep_ws_ch a ctx hc
+    rw [this]
+    have h1 := (reSplitWs_canon s).1 []
+    simp only [List.reverse_nil] at h1
+    have h2 : mapHead (fun x => ([] : Str) ++ x) (splitOnP isWs s) = splitOnP isWs s := by
+      cases splitOnP isWs s <;> simp [mapHead]
+    rw [h2] at h1
+    have e : (List.map (sem ctx ∘ str) (reSplitWs s [] false))
+        = (reSplitWs s [] false).map (List.map fun c => ((Atom.ch c, ctx) : Atom × List Markup)) := by
+      apply List.map_congr_left; intro x _; simp [sem]
+    rw [e, canon_map _ (by intro x; cases x <;> simp), canon_map _ (by intro x; cases x <;> simp), h1]
+  | hsym n =>
+    intro ctx hc
+    simp only [split, List.map_cons, List.map_nil, sem]
+    rw [splitOnP_none]
+    intro x hx; simp at hx; subst hx; simp [Flat.isSep]
+  | hnode k ps ih =>
+    intro ctx hc
+    have key : ∀ (k : Kind), Flat.isProt (ctx ++ k.markup) = false →
+        canon ((splitL .ws k true ps [.str []]).map (sem ctx))
+          = canon (splitOnP (Flat.isSep .ws) (semL (ctx ++ k.markup) ps)) := by
+      intro k hk
+      rw [splitL_sem_gen .ws ctx k true ps _ (by simp)]
+      simp only [keepF_true, semL, sem, List.map_nil, List.append_nil]
+      rw [mapHead_nil_append, semL_eq_flatMap, ← glueAll_splitOnP]
+      apply canon_glueAll_congr
+      · intro p _ h; exact split_ne_nil .ws p (List.map_eq_nil_iff.1 h)
+      · intro p _; exact splitOnP_ne_nil _ _
+      · intro p hp; exact ih p hp _ hk
+    cases k with
+    | prot =>
+      simp only [split, List.map_cons, List.map_nil]
+      rw [splitOnP_none]
+      intro x hx
+      simp only [sem, Kind.markup] at hx
+      simp [Flat.isSep, stack_prot ctx ps x hx]
+    | text => simp only [split, keepDefault, if_true, sem]; exact key .text (by simpa [Kind.markup] using hc)
+    | tag n => simp only [split, keepDefault, if_true, sem]; exact key (.tag n) (by rw [isProt_append, hc]; rfl)
+    | href u e => simp only [split, keepDefault, if_true, sem]; exact key (.href u e) (by rw [isProt_append, hc]; rfl)
+
+theorem keepF_false_eq_neF (S : List Flat) : keepF false S = neF S := by simp [keepF, neF]
+
+/-- `split()` (white space, empty pieces dropped – Python's `str.split()`): the non-empty pieces of
+the list split at the unprotected white-space characters -/
+theorem sem_split_ws (t : RT) (keep : Option Bool) (hk : keepDefault .ws keep = false) (ctx : List Markup)
+    (hc : Flat.isProt ctx = false) (ht : top t ≠ .symbol ∧ top t ≠ .multi .prot) :
+    (split .ws t keep).map (sem ctx) = neF (splitOnP (Flat.isSep .ws) (sem ctx t)) := by
+  cases t with
+  | str s =>
+    have hW := splitWsOK_all (.str s) ctx hc
+    simp only [split, keepDefault, Bool.or_true, List.map_map] at hW
+    rw [List.filter_eq_self.2 (fun _ _ => rfl)] at hW
+    simp only [split, hk, Bool.or_false, List.map_map]
+    rw [← neF_canon (splitOnP _ _), ← hW, neF_canon]
+    simp only [neF, List.filter_map]
+    congr 1
+    apply List.filter_congr
+    intro part _
+    cases part <;> simp [sem]
+  | sym n => simp at ht
+  | node k ps =>
+    have hkp : k ≠ .prot := by intro h; subst h; simp at ht
+    have hc' : Flat.isProt (ctx ++ k.markup) = false := by
+      rw [isProt_append, hc]; cases k <;> simp_all [Kind.markup, Flat.isProt]
+    have key : (splitL .ws k false ps []).map (sem ctx) = neF (splitOnP (Flat.isSep .ws) (sem ctx (.node k ps))) := by
+      rw [splitL_sem_gen .ws ctx k false ps [] (by simp)]
+      simp only [semL, sem]
+      rw [mapHead_nil_append, keepF_false_eq_neF, ← neF_canon, ← neF_canon (splitOnP _ _)]
+      congr 1
+      rw [semL_eq_flatMap, ← glueAll_splitOnP]
+      apply canon_glueAll_congr
+      · intro p _ h; exact split_ne_nil .ws p (List.map_eq_nil_iff.1 h)
+      · intro p _; exact splitOnP_ne_nil _ _
+      · intro p _; exact splitWsOK_all p _ hc'
+    cases k with
+    | prot => exact absurd rfl hkp
+    | text => simp only [split, hk, Bool.false_eq_true, if_false]; exact key
+    | tag n => simp only [split, hk, Bool.false_eq_true, if_false]; exact key
+    | href u e => simp only [split, hk, Bool.false_eq_true, if_false]; exact key
+
+theorem abs_split_ws (t : RT) (keep : Option Bool) (hk : keepDefault .ws keep = false) :
+    (split .ws t keep).map abs = Abs.split .ws false (abs t) := by
+  unfold Abs.split
+  by_cases ht : top t = .symbol ∨ top t = .multi .prot
+  · rw [if_pos (by simpa using ht)]
+    cases t with
+    | str s => simp at ht
+    | sym n => simp [split]
+    | node k ps => simp only [top_node, Top.multi.injEq, reduceCtorEq, false_or] at ht; subst ht; simp [split]
+  · rw [if_neg (by simpa using ht)]
+    have ht' : top t ≠ .symbol ∧ top t ≠ .multi .prot := by
+      constructor <;> intro h <;> simp [h] at ht
+    have hs := sem_split_ws t keep hk [] rfl ht'
+    have htop := top_split t .ws keep
+    simp only [neF] at hs
+    simp only [Bool.or_false]
+    rw [abs_atoms, ← hs, List.map_map]
+    apply List.map_congr_left
+    intro r hr
+    exact abs_ext (by simp [htop r hr]) rfl
+
+
 /-! ### histories -/
 
 /-- the operands of an operation are normal forms (they are objects) -/
@@ -1724,10 +2192,11 @@ def Op.OperandsNormal : Op → Bool
   | .joinWith xs => xs.all Normal
   | _ => true
 
-/-- the operations covered by the history theorem: everything except `split` at white space or
-at a separator of more than one character -/
+/-- the operations covered by the history theorem: everything except `split` at a separator of
+more than one character and `split(None, keep_empty_parts=True)` -/
 def Op.Covered : Op → Bool
   | .splitPick (.lit _ []) _ _ => true
+  | .splitPick .ws keep _ => !keepDefault .ws keep
   | .splitPick _ _ _ => false
   | _ => true
 
@@ -1757,6 +2226,11 @@ theorem step_abs (terms : List Str) (hT : ∀ x ∈ terms, x.length = 1) (t : RT
       simp only [step, Abs.step, Op.abs]
       rw [← abs_split_lit c0 t keep, List.length_map, getElem?_map_abs]
       cases (split (Sep.lit c0 []) t keep)[pick % (split (Sep.lit c0 []) t keep).length]? <;> rfl
+    | .ws, hs =>
+      have hk : keepDefault .ws keep = false := by simpa [Op.Covered] using hs
+      simp only [step, Abs.step, Op.abs, hk]
+      rw [← abs_split_ws t keep hk, List.length_map, getElem?_map_abs]
+      cases (split Sep.ws t keep)[pick % (split Sep.ws t keep).length]? <;> rfl
 
 theorem step_normal (terms : List Str) (t : RT) (ht : Normal t = true) (op : Op)
     (ho : op.OperandsNormal = true) (hs : op.Covered = true) (r : RT) (hr : step terms t op = .ok r) :
